@@ -896,7 +896,7 @@ func main() {
 		}
 		emit(gen.Fork(f.Seed, 1_000_000+i), c.pat, c.strs, c.name)
 	}
-	n := f.Count(110, 3000)
+	n := f.Count(95, 3000)
 	for i := 0; i < n; i++ {
 		r := gen.Fork(f.Seed, i)
 		var pat string
